@@ -178,6 +178,14 @@ func main() {
 		var rs []rune
 		for i := 0; i < k; i++ {
 			rs = append(rs, []rune(r.Pick(strPieces[kind]))...)
+			// any ASCII character in a digit position: a decoder that classifies by bit tricks (case folding, table look-up
+			// without a range check) shows on control characters and on the neighbours of the digit and letter ranges
+			if kind != "utf8" && r.Chance(22) {
+				rs = append(rs, rune(r.Intn(128)))
+				if r.Chance(60) {
+					rs = append(rs, []rune(r.Pick([]string{"4", "a", "F", "41", "Q"}))...)
+				}
+			}
 			if kind == "utf8" && r.Chance(8) {
 				rs = append(rs, loneSur[r.Intn(3)])
 			}
